@@ -264,6 +264,46 @@ def run_cli(desc, ctx):
                 ctx.violation("cli-value|%s" % name, "-m %s -r %s -b %s row %d: csv %s, definition %r (table %s)"
                               % (name, ts, b, i, rows[i][-1], want, (a, bb, c, dd)), {"metric": name, "bin": b})
 
+        # the same score along another axis: one event -> the definition on that slice's table; several events -> verif
+        # averages the per-event scores ("Average all thresholds")
+        from vmon import refmodel
+        ds1 = {"inputs": [inp], "clim": None}
+        axis = rng.choice(["no", "leadtime", "location", "time"])
+        sl = refmodel.slices(ds1, 0, [("obs",), ("fcst",)], axis)
+        for tsub in ([ts[0], ts[1]] if (ul and uu) else [ts[rng.randrange(3)]], ts):
+            nev = len(tsub) - 1 if (ul and uu) else len(tsub)
+            o = runner.run_cli([path, "-m", name, "-r", ",".join(gen.fnum(t) for t in tsub), "-b", b, "-x", axis, "-type", "csv"])
+            if o.status != "ok":
+                ctx.violation("cli-failed|%s|other-axis" % name, str(o.brief()), {"metric": name, "bin": b, "axis": axis})
+                continue
+            h, rows = runner.parse_csv(o.stdout)
+            ctx.case("%s|%s|cli-%s|events=%d" % (name, b, axis, nev), True)
+            if len(rows) != len(sl):
+                ctx.violation("cli-rows|%s" % name, "%d rows for %d slices" % (len(rows), len(sl)), {"metric": name, "bin": b, "axis": axis})
+                continue
+            for r, (lab, cs) in zip(rows, sl):
+                vals = []
+                for i in range(nev):
+                    a = bb = c = dd = 0
+                    for ov, fv in cs:
+                        eo = attach.in_documented_event(ov, b, tsub[i], tsub[i + 1] if (ul and uu) else None)
+                        ef = attach.in_documented_event(fv, b, tsub[i], tsub[i + 1] if (ul and uu) else None)
+                        a += ef and eo
+                        bb += ef and not eo
+                        c += (not ef) and eo
+                        dd += (not ef) and (not eo)
+                    vals.append(refmetrics.categorical(name, a, bb, c, dd) if cs else float("nan"))
+                ctx.count("csv_values_other_axis")
+                if any(v is None or v != v or abs(v) == float("inf") for v in vals):
+                    if nev > 1:
+                        continue        # an undefined term: the average is not pinned down
+                    want = vals[0]
+                else:
+                    want = sum(vals) / nev
+                if not vutil.close_text_number(r[-1], want, 6) and not (want == want and abs(float(r[-1]) - want) < 1e-9):
+                    ctx.violation("cli-value-other-axis|%s" % name, "-m %s -r %s -b %s -x %s slice %s: csv %s, definition %r"
+                                  % (name, tsub, b, axis, lab, r[-1], want), {"metric": name, "bin": b, "axis": axis})
+
 
 def run_shard(desc, ctx):
     part = desc["part"]
